@@ -15,8 +15,12 @@ T: Trace_BlobStoreFault.tla validates every segment strictly (the interrupted ca
 import json
 import os
 import re
+import sys
 
 import vlib
+
+sys.path.insert(0, os.path.dirname(os.path.abspath(__file__)))
+import _stream  # noqa: E402
 
 LEVEL = "model_checking"
 
@@ -133,6 +137,8 @@ def run(ctx, replay):
     quick = ctx.quick()
     if replay:
         rp = json.load(open(replay))
+        if rp.get("family") == "stream":
+            return _stream.run_replay(ctx, rp)
         # a saved segment is re-validated as recorded (the crash state cannot be re-materialised without its history);
         # re-running the whole check reproduces it from the same seed
         tf = ctx.path("seg.ndjson")
@@ -209,3 +215,4 @@ def run(ctx, replay):
                         "diskpacked index (harness KV) is snapshotted at call boundaries; crash consistency of leveldb/kv/sqlite files themselves is not perkeep's code",
                         "diskpacked crash states are materialised from two consecutive acknowledged states (it writes through os directly, so it cannot be frozen mid-call)",
                         "the write -> fsync -> index-update order inside diskpacked is observed at system-call level (strace) with marker writes issued by the harness index KV"]
+    _stream.run_leg(ctx, quick, "diskpacked")
